@@ -451,7 +451,7 @@ template<class T> constexpr T spice(T*t) {return *t;}
 #define rCOptionCb_(getcode, setcode) { \
             if(!strcmp("", args)) {\
                 data.reply(loc, "i", static_cast<int>(getcode)); \
-            } else if(!strcmp("s", args) || !strcmp("S", args)) { \
+            } else if(args[0] == 's' || args[0] == 'S') { \
                 int var = \
                     enum_key(prop, rtosc_argument(msg, 0).s); \
                 /* make sure we have no out-of-bound options */ \
@@ -467,7 +467,9 @@ template<class T> constexpr T spice(T*t) {return *t;}
                     rtosc_argument(msg, 0).i; \
                 rLIMIT(var, atoi) \
                 rCAPPLY(getcode, i, setcode) \
-                data.broadcast(loc, rtosc_argument_string(msg), getcode);\
+                /* the type of the one argument that was read */ \
+                const char type[2] = {args[0], 0}; \
+                data.broadcast(loc, type, getcode);\
                 rChangeCb; \
             } \
         }
@@ -488,7 +490,7 @@ template<class T> constexpr T spice(T*t) {return *t;}
             data.reply(loc, obj->name ? "T" : "F"); \
         } else { \
             if(obj->name != rtosc_argument(msg, 0).T) { \
-                data.broadcast(loc, args);\
+                data.broadcast(loc, rtosc_argument(msg, 0).T ? "T" : "F");\
                 obj->name = rtosc_argument(msg, 0).T; \
                 rChangeCb; \
             } \
@@ -562,7 +564,7 @@ template<class T> constexpr T spice(T*t) {return *t;}
             data.reply(loc, obj->name[idx] ? "T" : "F"); \
         } else { \
             if(obj->name[idx] != rtosc_argument(msg, 0).T) { \
-                data.broadcast(loc, args);\
+                data.broadcast(loc, rtosc_argument(msg, 0).T ? "T" : "F");\
                 rChangeCb; \
             } \
             obj->name[idx] = rtosc_argument(msg, 0).T; \
@@ -573,7 +575,7 @@ template<class T> constexpr T spice(T*t) {return *t;}
             data.reply(loc, obj->name[idx].member ? "T" : "F"); \
         } else { \
             if(obj->name[idx].member != rtosc_argument(msg, 0).T) { \
-                data.broadcast(loc, args);\
+                data.broadcast(loc, rtosc_argument(msg, 0).T ? "T" : "F");\
                 rChangeCb; \
             } \
             obj->name[idx].member = rtosc_argument(msg, 0).T; \
